@@ -116,6 +116,8 @@ type rvEntry struct {
 // are stored in their encoded form (as the SQLite backend does), so callers get
 // deep copies and persistence bugs surface.
 type Mem struct {
+	// NoOwnerChain makes OwnerKey return the key without its certificate chain
+	NoOwnerChain bool
 	J *Journal
 
 	mu       sync.Mutex
@@ -642,6 +644,9 @@ func (m *Mem) OwnerKey(ctx context.Context, typ protocol.KeyType, bits int) (cry
 	e, ok := m.ownKeys[keyID{typ, rsaBitsFor(typ, bits)}]
 	if !ok {
 		return nil, nil, fdo.ErrNotFound
+	}
+	if m.NoOwnerChain {
+		return e.key, nil, nil // an owner key stored without a certificate chain (allowed by the key store's contract)
 	}
 	return e.key, e.chain, nil
 }
